@@ -10,6 +10,7 @@ exit 2: tool error / time-out (never a verdict)
 import argparse
 import json
 import os
+import re
 import sys
 import time
 
@@ -57,6 +58,32 @@ DESIGN_MC = {
     "C04": [("EncoderSeq.tla", "EncoderSeq.cfg", "EncoderSeq: InfoBounds over every length 0..10 (BS=3, MinBS=2)")],
     "C09": [("EncoderChoice.tla", "EncoderChoice.cfg", "EncoderChoice: the subframe / stereo decision rules never exceed verbatim / independent, pick a minimum, are monotone in the switches (all sizes 0..6)")],
 }
+
+
+def long_digest(prop, tier, seed, res):
+    """One real stream with > 0x110000 frames (thorough: > 2^21, i.e. the first 5-byte frame numbers), judged by
+    TraceLong.tla from a digest: ALL frame lengths / reported sizes run-length coded + fully parsed sampled frames."""
+    out = os.path.join(vlib.WORK, "long", f"{prop}-{tier}.ndjson")
+    args = ["long", "--tier", tier, "--seed", seed, "--out", out, "--props", "C01,C02,C04,C05,C08,C09"]
+    summ = vlib.run_fv(args, timeout=3000)
+    verdicts, states, trans, _ = vlib.run_trace_shards("TraceLong.tla", "TraceLong.cfg", summ["files"], tagp=prop + "long")
+    if len(verdicts) != summ["cases"]:
+        raise ToolError(f"{summ['cases']} long streams but {len(verdicts)} verdicts")
+    ok = 0
+    for cid, (v, msgs) in sorted(verdicts.items()):
+        mine = [m for m in msgs if m.startswith(prop + ":") or m.startswith("ALL:")]
+        if v == "pass" or not mine:
+            ok += 1
+            continue
+        res.failures.append(dict(key=f"{prop} long-stream " + re.sub(r"\d+", "#", mine[0])[:200], what=f"case {cid}: " + "; ".join(mine[:3]), name=cid,
+                                 replay=dict(property=prop, kind="long", harness_args=args, case=cid, what=mine[:10])))
+    res.coverage["very_long_streams"] = dict(streams=summ["cases"], accepted=ok, detail=summ["samples"],
+                                             note="every frame's written length and reported size enters the judgement (run-length coded); "
+                                                  "sampled frames (class boundaries, extremes, last, random) are parsed completely by TLC")
+    res.coverage["states"] += states
+    res.coverage["transitions"] += trans
+    res.coverage["traces_validated_against_impl"] += ok
+    res.coverage["evaluations"] += sum(x["frames"] for x in summ["samples"])
 
 
 def choice_conformance(tier, seed, res):
@@ -137,6 +164,8 @@ def check_stream(prop, tier, seed, only=None, outdir=None, props=None, accept=No
         checker_cmd="tlc -workers 1 -config TraceStream.cfg TraceStream.tla (one JVM per NDJSON shard, env TRACE)")
     if prop == "C09" and not only and props is None:
         choice_conformance(tier, seed, res)
+    if prop in ("C04", "C08") and not only and props is None:
+        long_digest(prop, tier, seed, res)
     if prop == "C03":
         # the hash is fed by a separate thread in the multi-thread encoder: controlled schedules in which that
         # thread is starved (the 16-slot process queue fills up, 17..21 blocks), validated against ParEncoder.tla
@@ -669,8 +698,47 @@ def check_comp(prop, tier, seed):
     return res
 
 
+def builder_conformance(prop, tier, seed, res):
+    """StreamBuilder.tla: the component-level assembly API (Stream::new / add_frame / add_metadata_block / STREAMINFO
+    setters / write).  BuilderGen.tla (TLC) writes every call sequence of length <= 3 over 20 calls; the harness replays
+    them on a real Stream; TraceBuilder.tla steps the model's actions through the record.  C08 (count_bits = bits
+    written) is judged; the rest is model conformance (MODEL-DIVERGENCE, exit code unaffected)."""
+    r = vlib.run_tlc("StreamBuilderMC.tla", "StreamBuilder.cfg", tag="sbmc", workers=4, xmx="4g", timeout=1200)
+    tlc_ok(r, "StreamBuilder: ChainOk, BoundsExact, NoSentinelOnWire over all call sequences of length <= 4")
+    d = os.path.join(vlib.WORK, "builder")
+    os.makedirs(d, exist_ok=True)
+    hist = os.path.join(d, "hist.ndjson")
+    g = vlib.run_tlc("BuilderGen.tla", "BuilderGen.cfg", dict(OUTB=hist), tag="sbgen", workers=2, xmx="4g", timeout=1200)
+    tlc_ok(g, "BuilderGen")
+    args = ["builder", "--hist", hist, "--out", os.path.join(d, f"out-{tier}"), "--stride", 1 if tier == "thorough" else 10, "--shards", vlib.JVMS]
+    summ = vlib.run_fv(args, timeout=1200)
+    verdicts, states, trans, _ = vlib.run_trace_shards("TraceBuilder.tla", "TraceBuilder.cfg", summ["files"], tagp="sb")
+    if len(verdicts) != summ["histories"]:
+        raise ToolError(f"{summ['histories']} call sequences but {len(verdicts)} verdicts")
+    ok = div = 0
+    for cid, (v, msgs) in sorted(verdicts.items()):
+        mine = [m for m in msgs if m.startswith(prop + ":")]
+        if mine:
+            res.failures.append(dict(key=f"{prop} assembly-api " + re.sub(r"\d+", "#", mine[0])[:200], what=f"call sequence {cid}: " + "; ".join(mine[:3]), name=cid,
+                                     replay=dict(property=prop, kind="builder", harness_args=args, case=cid, what=mine[:10],
+                                                 trace_lines=vlib.extract_case(summ["files"], cid))))
+        elif v == "pass":
+            ok += 1
+        else:
+            div += 1
+            if div <= 5:
+                print(f"MODEL-DIVERGENCE property={prop} assembly-api sequence={cid} {' '.join(msgs)[:300]}")
+    res.coverage["assembly_api"] = dict(call_sequences=summ["histories"], calls=summ["calls"], accepted_by_TraceBuilder=ok, diverged=div,
+                                        panics=len(summ["panics"]), model_states=r["states"], palette_bs_bytes=summ["palette"])
+    res.coverage["states"] += states + r["states"]
+    res.coverage["transitions"] += trans + r["generated"]
+    res.coverage["traces_validated_against_impl"] += ok
+    res.coverage["evaluations"] += summ["calls"]
+
+
 def check_c08(prop, tier, seed):
     res = check_stream(prop, tier, seed)
+    builder_conformance(prop, tier, seed, res)
     summ, states, trans, ok = run_comp(prop, tier, seed, [prop], res)
     res.coverage["states"] += states
     res.coverage["transitions"] += trans
@@ -850,7 +918,7 @@ def check_c10(prop, tier, seed):
     out = os.path.join(vlib.WORK, f"{prop}-{tier}")
     shutil.rmtree(out, ignore_errors=True)
     summ = vlib.run_fv(["history", "--histories", hist, "--out", out, "--seed", seed, "--shards", vlib.JVMS,
-                        "--random", 20000 if tier == "thorough" else 500], timeout=3000)
+                        "--random", 20000 if tier == "thorough" else 500, "--pairs", "--tier", tier], timeout=3000)
     verdicts, states, trans, _ = vlib.run_trace_shards("TraceHistory.tla", "TraceHistory.cfg", summ["files"], tagp=prop, timeout=3000)
     ok, seen = 0, set()
     for vid, (v, msgs) in sorted(verdicts.items()):
@@ -868,7 +936,8 @@ def check_c10(prop, tier, seed):
                         rule="TLC generates EVERY history of length <= 3 over an alphabet of 14 calls (stream-level mono/stereo/5-channel at block sizes "
                              "32/64/96/256/4096 and widths 8/12/16/20/24, rectangular / Tukey(0) / Tukey(1e-6) / Tukey(0.4) / Tukey(0.4+2^-20) windows at one "
                              "block size, BitCount, max_parameter 0, frame-level, parse + re-serialise through both sinks, a header write that fails part-way, a stream write into a failing sink) = 2954 histories, plus seeded "
-                             "random histories of length 8; each history runs on its own long-lived thread, each call also alone on two fresh threads; "
+                             "random histories of length 8, plus every ordered pair over a window-cache aliasing alphabet (18 window parameters: rectangular, 0, below/around f32::EPSILON, "
+                             "neighbours of 0 / 0.4 / 1 at 1 ulp .. 1e-3; 5 block sizes sharing a 16-sample bucket or differing by one; 2 signals); each history runs on its own long-lived thread, each call also alone on two fresh threads; "
                              "TraceHistory.tla (stateless machine) rejects a result that differs from the fresh-thread result. distinct = histories",
                         samples=[["E", "F"], ["C", "A", "B"]], exhaustive=True)
     res.assumptions = ["the alphabet's calls are representative of the thread-local scratch state (fixed-LPC planes, QLPC buffer, mid/side buffer, window cache, "
